@@ -16,6 +16,9 @@ import Hts.Lemmas.IndexStats
 import Hts.Lemmas.IndexRepr
 import Hts.Lemmas.IndexIORead
 import Hts.Lemmas.IndexIOTabixRead
+import Hts.Lemmas.IndexIOCsiRead
+import Hts.Lemmas.IndexCsiRepr
+import Hts.Lemmas.IndexTabixRepr
 import Hts.Props.C04
 namespace Hts.Props.C15
 open Hts.Model Hts.Model.Index Hts.Model.IndexIO
@@ -71,7 +74,7 @@ theorem norm_wf (i : Index) (h : WF i) : WF (norm i) := wf_norm i h
 `chunks_complete`, `bai_read_write` and `chunks_norm` -/
 theorem bai_chunks_complete_after_roundtrip (recs : List Bai.BaiRec)
     (h : SortedInput (recs.map Hts.Props.C04.baiRec)) (hwf : WF (Hts.Props.C04.baiBuilt recs))
-    (r : Bai.BaiRec) (hr : r ∈ recs) (hp : (Hts.Props.C04.baiRec r).placed = true)
+    (r : Bai.BaiRec) (hr : r ∈ recs) (hp : (Hts.Props.C04.baiRec r).placed = true) (hne : r.pos < r.stop)
     (beg stop : Int) (hb : 0 ≤ beg) (hq : beg < stop) (hs29 : stop ≤ 536870912)
     (hov1 : r.pos < stop) (hov2 : beg < r.stop) (s : List Chunk → List Chunk) (hs : EncLaw s) :
     ∃ i', readBai (writeBai (Hts.Props.C04.baiBuilt recs)) = .ok i' ∧
@@ -79,7 +82,7 @@ theorem bai_chunks_complete_after_roundtrip (recs : List Bai.BaiRec)
         coveredBy cs r.chunk := by
   refine ⟨norm (Hts.Props.C04.baiBuilt recs), readBai_writeBai _ hwf, ?_⟩
   rw [bai_chunks_norm]
-  exact (Hts.Props.C04.bai_chunks_complete recs h r hr hp beg stop hb hq hs29 hov1 hov2 id s encLaw_id hs).1
+  exact (Hts.Props.C04.bai_chunks_complete recs h r hr hp hne beg stop hb hq hs29 hov1 hov2 id s encLaw_id hs).1
 
 /-- "or previously read" (BAI): WHATEVER byte string `bam.ReadIndex` accepts, the index it returns is
 well-formed, so writing it and reading it back gives its canonical form, the same bytes on every
@@ -178,6 +181,28 @@ theorem tabix_chunks_norm_built (hdr : Tabix.Header) (recs : List Tabix.TRec) (n
       Tabix.chunks Coord.overlappingBinsFor Local.adjacent (Hts.Props.C04.tbxBuilt hdr recs) name beg stop :=
   tabix_chunks_norm _ _ name beg stop (Tabix.built_map_agrees Coord.binFor hdr recs name)
 
+/-- every tabix index built by `tabix.Index.Add` from a coordinate-sorted input is representable (`TWF`),
+under hypotheses on the INPUT only: header fields in their byte/int32 ranges, fewer than 2^31 − 1 records,
+chunk offsets below 2^63, NUL-free reference names whose total length (with terminators) is below 2^31.
+(A name containing NUL is accepted by `WriteTo` and splits into two names in `ReadFrom`: excluded here.) -/
+theorem tabix_built_wf (hdr : Tabix.Header) (hh : HeaderFieldsOK hdr) (recs : List Tabix.TRec)
+    (h : SortedInput (Hts.Props.C04.tbxTrace hdr recs)) (hlen : recs.length < 2147483647)
+    (hoff : ∀ r, r ∈ recs → r.chunk.e < 9223372036854775808)
+    (hnul : ∀ r, r ∈ recs → ∀ b, b ∈ r.name → b ≠ 0)
+    (hnames : (nameBlock (recs.map (·.name))).length < 2147483648) :
+    TWF (Hts.Props.C04.tbxBuilt hdr recs) :=
+  tabix_built_twf hdr hh recs h hlen hoff hnul hnames
+
+/-- tabix end to end, hypotheses on the input only -/
+theorem tabix_roundtrip_built (hdr : Tabix.Header) (hh : HeaderFieldsOK hdr) (recs : List Tabix.TRec)
+    (h : SortedInput (Hts.Props.C04.tbxTrace hdr recs)) (hlen : recs.length < 2147483647)
+    (hoff : ∀ r, r ∈ recs → r.chunk.e < 9223372036854775808)
+    (hnul : ∀ r, r ∈ recs → ∀ b, b ∈ r.name → b ≠ 0)
+    (hnames : (nameBlock (recs.map (·.name))).length < 2147483648) :
+    readTabix (writeTabix (Hts.Props.C04.tbxBuilt hdr recs)) = .ok (normTabix (Hts.Props.C04.tbxBuilt hdr recs)) ∧
+      writeTabix (normTabix (Hts.Props.C04.tbxBuilt hdr recs)) = writeTabix (Hts.Props.C04.tbxBuilt hdr recs) :=
+  ⟨readTabix_writeTabix _ (tabix_built_wf hdr hh recs h hlen hoff hnul hnames), writeTabix_norm _⟩
+
 /-- a tabix index without references and names (nothing or only unplaced lines added) round-trips -/
 theorem tabix_read_write_noRefs (n : Nat) (hn : n < 18446744073709551616) :
     readTabix (writeTabix { idx := { unmapped := some n } }) =
@@ -192,8 +217,8 @@ theorem tabix_read_write_noRefs (n : Nat) (hn : n < 18446744073709551616) :
 
 /-! ### CSI versions 1 and 2, any auxiliary bytes -/
 
-/-- `read_write` (CSI): for every representable CSI index of version 1 or 2 with depth ≤ 9 and
-`minShift + 3·depth ≤ 62` (the geometry range `csi.ReadFrom` accepts) -/
+/-- `read_write` (CSI): for every representable CSI index of version 1 or 2 with `minShift + 3·depth ≤ 62`
+(the geometry range `csi.ReadFrom` accepts; the bin limit is the `uint32` value the code computes) -/
 theorem csi_read_write (i : Csi.CIndex) (h : CWF i) : readCsi (writeCsi i) = .ok (normCsi i) :=
   readCsi_writeCsi i h
 
@@ -209,17 +234,54 @@ theorem csi_chunks_norm (i : Csi.CIndex) (rid beg stop : Int) :
       Csi.chunks Coord.reg2bins Local.adjacent i rid beg stop :=
   IndexIO.csi_chunks_norm _ _ i rid beg stop
 
-/-- C04's completeness for CSI carries over to the index read back from the written bytes -/
-theorem csi_chunks_complete_after_roundtrip (ms d : Nat) (hd : d ≤ 10) (recs : List Csi.CRec)
-    (h : Csi.CSortedInput ms d recs) (hwf : CWF (Hts.Props.C04.csiBuilt ms d recs))
+/-- every CSI index built by `csi.Index.Add` from a coordinate-sorted input is representable (`CWF`), under
+hypotheses on the INPUT only: depth ≤ 9, minShift + 3·depth ≤ 62, fewer than 2^31 − 1 records, reference ids
+below 2^31 − 1, chunk offsets below 2^63; any version 1/2 and any auxiliary bytes.  The bound "bins + pseudo-bin
+≤ bin limit + 1" is a pigeonhole argument over the pairwise distinct bin numbers (`nodup_length_le`,
+`reg2bin_lt_binLimit`) and is tight: a reference may use every bin (fixes/C15-1) -/
+theorem csi_built_wf (ms d : Nat) (hd : d ≤ 9) (hgeom : ms + 3 * d ≤ 62)
+    (version : Nat) (hver : version = 1 ∨ version = 2) (aux : List UInt8) (haux : aux.length < 2147483648)
+    (recs : List Csi.CRec) (h : Csi.CSortedInput ms d recs) (hlen : recs.length < 2147483647)
+    (hrid : ∀ r, r ∈ recs → r.rid < 2147483647)
+    (hoff : ∀ r, r ∈ recs → r.chunk.e < 9223372036854775808) :
+    CWF (Csi.addAll Coord.reg2bin { aux := aux, version := version, minShift := ms, depth := d } recs).1 :=
+  csi_built_cwf ms d hd (by omega) hgeom _ ⟨rfl, rfl, rfl, rfl⟩ rfl rfl hver haux recs h hlen hrid hoff
+
+/-- CSI end to end, hypotheses on the input only: the built index is written, read back as its canonical
+form and written again to identical bytes -/
+theorem csi_roundtrip_built (ms d : Nat) (hd : d ≤ 9) (hgeom : ms + 3 * d ≤ 62)
+    (version : Nat) (hver : version = 1 ∨ version = 2) (aux : List UInt8) (haux : aux.length < 2147483648)
+    (recs : List Csi.CRec) (h : Csi.CSortedInput ms d recs) (hlen : recs.length < 2147483647)
+    (hrid : ∀ r, r ∈ recs → r.rid < 2147483647)
+    (hoff : ∀ r, r ∈ recs → r.chunk.e < 9223372036854775808) :
+    let i := (Csi.addAll Coord.reg2bin { aux := aux, version := version, minShift := ms, depth := d } recs).1
+    readCsi (writeCsi i) = .ok (normCsi i) ∧ writeCsi (normCsi i) = writeCsi i :=
+  ⟨readCsi_writeCsi _ (csi_built_wf ms d hd hgeom version hver aux haux recs h hlen hrid hoff), writeCsi_norm _⟩
+
+/-- "or previously read" (CSI): whatever byte string `csi.ReadFrom` accepts, the index it returns is
+well-formed, reads back as its canonical form, re-writes to the same bytes and answers identically -/
+theorem csi_previously_read (bs : Bytes) (i : Csi.CIndex) (h : readCsi bs = .ok i) :
+    CWF i ∧ readCsi (writeCsi i) = .ok (normCsi i) ∧ writeCsi (normCsi i) = writeCsi i ∧
+      ∀ rid beg stop, Csi.chunks Coord.reg2bins Local.adjacent (normCsi i) rid beg stop =
+        Csi.chunks Coord.reg2bins Local.adjacent i rid beg stop :=
+  ⟨readCsi_wf h, readCsi_writeCsi i (readCsi_wf h), writeCsi_norm i, IndexIO.csi_chunks_norm _ _ i⟩
+
+/-- C04's completeness for CSI carries over to the index read back from the written bytes (input-only
+hypotheses; `csiBuilt` is the version-2 index without auxiliary data) -/
+theorem csi_chunks_complete_after_roundtrip (ms d : Nat) (hd : d ≤ 9) (hgeom : ms + 3 * d ≤ 62)
+    (recs : List Csi.CRec) (h : Csi.CSortedInput ms d recs) (hlen : recs.length < 2147483647)
+    (hrid : ∀ r, r ∈ recs → r.rid < 2147483647)
+    (hoff : ∀ r, r ∈ recs → r.chunk.e < 9223372036854775808)
     (r : Csi.CRec) (hr : r ∈ recs) (hp : r.placed = true)
     (beg stop : Int) (hb : 0 ≤ beg) (hq : beg < stop) (hs : stop ≤ (2 : Int) ^ (ms + 3 * d))
     (hov1 : r.start < stop) (hov2 : beg < r.stop) :
     ∃ i', readCsi (writeCsi (Hts.Props.C04.csiBuilt ms d recs)) = .ok i' ∧
       coveredBy (Csi.chunks Coord.reg2bins Local.adjacent i' r.rid beg stop) r.chunk := by
+  have hwf : CWF (Hts.Props.C04.csiBuilt ms d recs) :=
+    csi_built_wf ms d hd hgeom 2 (Or.inr rfl) [] (by simp) recs h hlen hrid hoff
   refine ⟨_, readCsi_writeCsi _ hwf, ?_⟩
   rw [IndexIO.csi_chunks_norm]
-  exact (Hts.Props.C04.csi_chunks_complete ms d hd recs h r hr hp beg stop hb hq hs hov1 hov2 id encLaw_id).1
+  exact (Hts.Props.C04.csi_chunks_complete ms d (by omega) hgeom recs h r hr hp beg stop hb hq hs hov1 hov2 id encLaw_id).1
 
 /-! ### statistics equal the true counts -/
 
@@ -264,7 +326,7 @@ theorem stats_true (recs : List Rec) (h : SortedInput recs) :
 
 /-- `stats_true` for CSI (every geometry): per-reference statistics, unplaced counter and reference
 count of an index built from a coordinate-sorted sequence are the true ones -/
-theorem csi_stats_true (ms d : Nat) (recs : List Csi.CRec) (h : Csi.CSortedInput ms d recs) :
+theorem csi_stats_true (ms d : Nat) (_hgeom : ms + 3 * d ≤ 62) (recs : List Csi.CRec) (h : Csi.CSortedInput ms d recs) :
     (∀ (j : Nat) (ref : Csi.CRef), (Hts.Props.C04.csiBuilt ms d recs).refs[j]? = some ref →
         ref.stats = Csi.specStatsC ((recs.filter (·.placed)).filter (fun a => decide (a.rid = (j : Int))))) ∧
     (recs ≠ [] → (Hts.Props.C04.csiBuilt ms d recs).unmapped = some (recs.countP (fun r => !r.placed))) ∧
@@ -328,5 +390,22 @@ example : WF exIdx :=
     (by intro n hn; cases hn; decide)
 
 example : exIdx.refs ≠ [] := by decide
+
+/-- `CWF` is inhabited by a non-trivial index: the (4,2) CSI index of `C04.exCsi` (records on two
+references, a skipped id, a record over two finest bins, an unplaced record) -/
+example : CWF (Hts.Props.C04.csiBuilt 4 2 Hts.Props.C04.exCsi) :=
+  csi_built_wf 4 2 (by decide) (by decide) 2 (Or.inr rfl) [] (by simp) Hts.Props.C04.exCsi (by decide) (by decide)
+    (by decide) (by decide)
+
+/-- … and so is `TWF`: the tabix index of `C04.exTbx` (two named references, an unplaced line naming a third) -/
+example : TWF (Hts.Props.C04.tbxBuilt {} Hts.Props.C04.exTbx) :=
+  tabix_built_wf {} ⟨by decide, by decide, by decide, by decide, by decide, by decide⟩ Hts.Props.C04.exTbx
+    (by decide) (by decide) (by decide) (by decide) (by decide)
+
+/-- a version-1 CSI index with auxiliary bytes is representable as well -/
+example : CWF (Csi.addAll Coord.reg2bin { aux := [1, 2, 3], version := 1, minShift := 4, depth := 2 }
+    Hts.Props.C04.exCsi).1 :=
+  csi_built_wf 4 2 (by decide) (by decide) 1 (Or.inl rfl) [1, 2, 3] (by decide) Hts.Props.C04.exCsi (by decide)
+    (by decide) (by decide) (by decide)
 
 end Hts.Props.C15
